@@ -7,12 +7,18 @@
 import SV.Persist.Proofs
 import SV.Persist.CrashProofs
 import SV.FactsProofs.Sync
+import SV.FactsProofs.Blocks
 import SV.GenProofs.Persist
 namespace SV.Props.C10
 open SV SV.Persist
 
 /-- every LevelDB write the persisters issue is synced (regenerated from the current source on every run) -/
 theorem every_write_is_synced : ∀ w ∈ Facts.leveldbWrites, w.2 = true := Facts.all_writes_sync
+/-- (regenerated fact) both persisters hold the batch mutex from before the LevelDB write of a flush until the batch has been
+    reset (DB) / swapped and answered (SerialDB): the model's `flush` — write `ops`, continue with `[]` — is one atomic step of
+    the code, so an operation acknowledged meanwhile is in the NEXT batch and not wiped with the flushed one -/
+theorem flush_is_one_critical_section : (Facts.serialFlushHoldsLock && Facts.dbFlushHoldsLock) = true :=
+  Facts.flush_is_one_critical_section
 /-- (regenerated fact) what is handed to goleveldb at a flush is the batch's own record list, in the order of the operations -/
 theorem every_flush_writes_the_record_list :
     Facts.leveldbWriteArgs = ["DB.putBatch: dbBatch.batch", "putBatchAct.doPutRequest: p.batch.batch"] :=
